@@ -1,5 +1,6 @@
 use reqwest::{Method, Response};
 use serde::{de::DeserializeOwned, Deserialize, Serialize};
+use std::time::Duration;
 
 use teos_common::appointment::Appointment;
 use teos_common::cryptography;
@@ -160,6 +161,10 @@ pub async fn send_appointment(
     }
 }
 
+/// Maximum time (in seconds) a request to a tower can take, from connecting until the reply has been fully received.
+/// A tower that does not answer within it is handled like a tower that cannot be reached.
+const REQUEST_TIMEOUT: u64 = 15;
+
 /// A generic function to send a request to a tower.
 async fn request<S: Serialize>(
     tower_net_addr: &NetAddr,
@@ -190,10 +195,12 @@ async fn request<S: Serialize>(
         reqwest::Client::new()
     };
 
-    let mut request_builder = client.request(
-        method,
-        format!("{}{}", tower_net_addr.net_addr(), endpoint.path()),
-    );
+    let mut request_builder = client
+        .request(
+            method,
+            format!("{}{}", tower_net_addr.net_addr(), endpoint.path()),
+        )
+        .timeout(Duration::from_secs(REQUEST_TIMEOUT));
 
     if let Some(data) = data {
         request_builder = request_builder.json(&data);
